@@ -15,7 +15,7 @@ GET = {'cp': 'get_CpoR', 'h': 'get_HoRT', 's': 'get_SoR', 'g': 'get_GoRT',
 def main():
     p = read_payload()
     out = []
-    libs, dec, ests = {}, {}, {}
+    libs, dec, ests, mols = {}, {}, {}, {}
     with quiet():
         for o in p['cases'][0]['ops']:
             r = {}
@@ -35,6 +35,12 @@ def main():
                         fn = getattr(est, GET[o['prop']])
                         v = fn(o['T'], **kw) if o['prop'] in ('s', 'g') else fn(o['T'])
                         r['v'] = float(v)
+                    elif o['op'] == 'decompose_mol':
+                        from rdkit import Chem
+                        if o['mid'] not in mols:
+                            mols[o['mid']] = Chem.AddHs(Chem.MolFromSmiles(o['smiles']))
+                        d = libs[o['obj']].GetDescriptors(mols[o['mid']])
+                        r['d'] = sorted([str(k), float(v)] for k, v in d.items())
                     elif o['op'] == 'estimate':
                         ests[(o['obj'], o['eid'])] = libs[o['obj']].Estimate(dec[(o['obj'], o['smiles'])], 'thermochem')
                     elif o['op'] == 'evalest':
